@@ -26,7 +26,9 @@ def sources():
     out = []
     metas = ["", "Title: T & \"q\" <1>\n\n", "Title: Plain\nAuthor: A B\ncss: style.css\n\n", "Title: L\nODF Header Level: 3\nHTML Header Level: 2\nBase Header Level: 2\n\n", "Title: E\nuuid: 11111111-2222-3333-4444-555555555555\nDate: 2020-02-02\n\n"]
     heads = ["", "# One\n\ntext\n\n", "# One\n\n## Two & <x>\n\ntext\n\n### Three\n\nmore\n\n"]
-    imgs = ["", "![alt](small.png)\n\n", "![big](big.png \"t\") and ![alt](small.png) again ![alt](small.png)\n\n", "![huge](huge.png)\n\n[link](http://x.y/)\n\n", "![missing](nofile.png)\n\n"]
+    imgs = ["", "![alt](small.png)\n\n", "![big](big.png \"t\") and ![alt](small.png) again ![alt](small.png)\n\n", "![huge](huge.png)\n\n[link](http://x.y/)\n\n", "![missing](nofile.png)\n\n",
+            "![a](small.png) text ![b](big.png) more ![c](huge.png) and ![d](small.png)\n\n![e][r]\n\n[r]: big.png \"T\"\n\n",
+            "Raw `<b>bold</b>`{=html} and `<text:span>odf</text:span>`{=odt} and `*`{=*} inline.\n\n```{=html}\n<div>raw</div>\n```\n\n![alt](small.png)\n\n"]
     for m in metas:
         for h in heads:
             for im in imgs:
@@ -36,7 +38,7 @@ def sources():
 
 def project_pkg(kind, data, plain, null):
     ok, mem, err = project.zip_members(data or b"")
-    r = dict(e="pkg", kind=kind, null=null, iszip=ok, members=[dict(name=m["name"], method=m["method"], crc_ok=m["crc_ok"]) for m in mem], mimetype="", rootfile="", manifest=[], assetrefs=[], hasplain=False, main="", plain="")
+    r = dict(e="pkg", kind=kind, null=null, iszip=ok, members=[dict(name=m["name"], method=m["method"], crc_ok=m["crc_ok"]) for m in mem], mimetype="", rootfile="", manifest=[], assetrefs=[], rawrefs=[], hasplain=False, main="", plain="")
     byname = {m["name"]: m["data"] for m in mem}
     if "mimetype" in byname: r["mimetype"] = byname["mimetype"].decode("latin-1")
     main = None
@@ -58,6 +60,10 @@ def project_pkg(kind, data, plain, null):
     elif kind == "bundlezip":
         t = byname.get("text.markdown")
         if t is not None: r["assetrefs"] = sorted(set(re.findall(r'assets/(' + UU + ')', t.decode("utf-8", "replace"))))
+    # asset files of the sources that are still referred to by their original name in the document the package carries
+    doc = main if kind in ("epub", "odt") else byname.get("text.markdown")
+    if doc is not None:
+        r["rawrefs"] = sorted({n for n in ("small.png", "big.png", "huge.png", "style.css") if re.search(rb'(?<![\w/])' + re.escape(n.encode()), doc)})
     if main is not None and plain is not None and kind in ("epub", "odt"):
         mask = lambda b: re.sub(rb'(src|href)="[^"]*"', rb'\1="URL"', b).strip()
         r["hasplain"] = True; r["main"] = project.fnv(mask(main)); r["plain"] = project.fnv(mask(plain))
@@ -70,7 +76,7 @@ def run(tier, seed):
     chk.assumptions += ["CRC / deflate correctness is judged by an independent reader (python zipfile reads every member)", "asset files referenced by the sources exist in the given directory, except one deliberately missing image",
                         "main-document relation: URLs in src/href attributes masked on both sides; EPUB compared with the complete HTML rendering, ODT with the flat OpenDocument body"]
     srcs = sources()
-    if tier == "quick": srcs = [s for i, s in enumerate(srcs) if i % 3 == 0 or "huge" in s]
+    if tier == "quick": srcs = [s for i, s in enumerate(srcs) if i % 3 == 0 or "huge" in s or "{=html}" in s]
     exe = build.build_harness("asan"); cli = build.build_cli()
     wd = scratch("c09")
     trace = []; problems = []
@@ -131,7 +137,7 @@ def run(tier, seed):
     npk = len([e for e in trace if e["e"] == "pkg"])
     chk.add("traces_validated_against_impl", npk - len(rejected))
     chk.cov["evaluations"] = npk; chk.cov["distinct_nontrivial"] = len(srcs)
-    chk.cov["rule"] = "sources = 5 metadata variants x {0, 1, 3 headings} x 5 image variants (none, tiny, several incl. a re-used one, a 49 KiB incompressible one, a missing file); each x {epub, odt, bundlezip, itmz} x {directory given, NULL} via convert_to_data, and via the CLI -o for a subset"
+    chk.cov["rule"] = "sources = 5 metadata variants x {0, 1, 3 headings} x 7 body variants (no image, tiny, several incl. a re-used one, a 49 KiB incompressible one, a missing file, four inline + one reference image, raw-format spans and blocks); each x {epub, odt, bundlezip, itmz} x {directory given, NULL} via convert_to_data, and via the CLI -o for a subset"
     chk.sample(dict(src=srcs[5])); chk.sample(dict(members=[m["name"] for m in [e for e in trace if e["e"] == "pkg"][0]["members"]]))
     seen = {}
     for seg, idx in rejected:
